@@ -329,6 +329,21 @@ def make_toy(rng):
         axis = len(shape) >= 1 and shape[0] == n and any(meta[p]["axis"] for p in pa) and not is_agg
         meta[nm] = dict(kind="derived", shape=shape, indwise=indwise, axis=axis, indep=False, parents=pa, src=f"{body}")
         order.append(nm)
+    # optional weighted data node (values on a small lattice incl. exact zeros, boolean or integer weights) with a weighted per-individual
+    # sum and a weight count depending on it: assignments that change ONLY the weights must invalidate both
+    if rng.random() < 0.4:
+        from leaspy.utils.weighted_tensor import sum_dim, wsum_dim_return_sum_of_weights_only
+
+        g2 = dict(g, sum_dim=sum_dim, wcount=wsum_dim_return_sum_of_weights_only)
+        defs["wd"] = DataVariable()
+        meta["wd"] = dict(kind="ind", shape=(n, k), indwise=True, axis=True, indep=True, weighted=True)
+        order.append("wd")
+        defs["wd_sum"] = LinkedVariable(eval("lambda *, wd: sum_dim(wd, but_dim=0)", g2))
+        meta["wd_sum"] = dict(kind="derived", shape=(n,), indwise=True, axis=True, indep=False, parents=["wd"], src="sum_dim(wd, but_dim=0)")
+        order.append("wd_sum")
+        defs["wd_n"] = LinkedVariable(eval("lambda *, wd: wcount(wd, but_dim=0)", g2))
+        meta["wd_n"] = dict(kind="derived", shape=(n,), indwise=True, axis=True, indep=False, parents=["wd"], src="count of weights of wd per individual")
+        order.append("wd_n")
     # ensure no isolated node: link unused indep into a final node
     used = set()
     for nm in order:
@@ -503,9 +518,37 @@ class HistoryRunner:
         self._on_violation(key, what, log, **obs)
 
     # --- helpers ---------------------------------------------------------------------
+    def _new_weighted(self, name, cur):
+        shape = self.settable[name]["shape"]
+        lattice = torch.tensor([0.0, 0.0, 0.5, 1.0, 2.0])
+        style = int(self.rng.integers(0, 4)) if cur is not None else 0
+        if style == 0 or not isinstance(cur, WeightedTensor) or cur.weight is None:
+            v = lattice[torch.tensor(self.rng.integers(0, len(lattice), size=shape))]
+            w = torch.tensor(self.rng.integers(0, 3, size=shape)) if self.rng.random() < 0.5 else torch.tensor(self.rng.random(shape) < 0.7)
+            return WeightedTensor(v, w)
+        if style == 1:  # same numbers, entries worth exactly 0 become masked (the weighted content is unchanged, the weights are not)
+            w = cur.weight.clone()
+            w[(cur.value == 0) & (torch.tensor(self.rng.random(shape) < 0.7))] = 0
+            return WeightedTensor(cur.value.clone(), w)
+        if style == 2:  # trade value against weight where both are non-zero (v*w unchanged)
+            v, w = cur.value.clone(), cur.weight.clone()
+            if w.dtype == torch.bool:
+                w = w.long()
+            sel = (v == 2.0) & (w == 1)
+            v[sel], w[sel] = 1.0, 2
+            return WeightedTensor(v, w)
+        # style 3: only the weights change (random re-masking)
+        w = cur.weight.clone()
+        flip = torch.tensor(self.rng.random(shape) < 0.3)
+        w = torch.where(flip, torch.zeros_like(w), w)
+        return WeightedTensor(cur.value.clone(), w)
+
     def _new_value(self, name):
         info = self.settable[name]
         cur = self.ref.indep.get(name)
+        if info.get("weighted"):
+            self.c("weighted_assignments")
+            return self._new_weighted(name, cur)
         if self.perturb and cur is not None:
             base = cur.value if isinstance(cur, WeightedTensor) else cur
             if not base.is_floating_point():
@@ -617,7 +660,9 @@ class HistoryRunner:
             self.ref.set(name, v)
             forked = self.ref.fork_mode is not None
         self.c("sets")
-        self.window = name if (forked and self.settable[name].get("axis")) else None
+        # a per-individual revert of a *weighted* (data) variable whose weights changed is explicitly refused by WeightedTensor arithmetic
+        # (NotImplementedError "weights differ"): not a stale answer, and not something a sampler does - such windows are not opened
+        self.window = name if (forked and self.settable[name].get("axis") and not self.settable[name].get("weighted")) else None
 
     def op_unset(self):
         name = str(self.rng.choice(list(self.settable)))
@@ -647,7 +692,7 @@ class HistoryRunner:
         )
         self.c("puts")
         if ok:
-            self.window = name if (self.ref.fork_mode is not None and self.settable[name].get("axis")) else None
+            self.window = name if (self.ref.fork_mode is not None and self.settable[name].get("axis") and not self.settable[name].get("weighted")) else None
 
     def op_revert(self):
         self.log.append(("revert",))
